@@ -19,10 +19,14 @@ from core import Stream, hexs, unhex
 
 ID = "C03"
 DESIGN_REF = "DESIGN.md section 5, C03"
-LEAN_TARGETS = ["PV.C03.Thm"]
+LEAN_TARGETS = ["PV.C03.Thm", "PV.Prog.Thm"]
 DRIVER = "drv_c03"
 HARNESS = {"bin": "pvh_c03", "features": "default"}
 THEOREMS = [
+    # the grammar as a total Lean function (PV.Prog.parseProgram, tied to the real parser by C01's prog-* streams): an explicit
+    # fuel bound, and more fuel never changes an answer — the model of the parsing stage neither hangs nor panics
+    "PV.Prog.parseProgram_total",
+    "PV.Prog.parseProgramFuel_mono",
     "PV.C03.octet_value_le",
     "PV.C03.octet_no_panic",
     "PV.C03.octet_consumes",
